@@ -1,4 +1,5 @@
 import GV.Spec.Events
+import GV.Spec.JsonWF
 /-
   Spec side: which (type, metadata, value) combinations are well-formed row-image cells — the union of the
   hypotheses of the per-type theorems of C10–C13.  Used to state the uniform cell / image / rows theorems of C09
@@ -33,6 +34,9 @@ def CellOK (typ md : Nat) (u : Bool) : CellVal → Prop
   | .str b => ((typ = 15 ∨ typ = 253) ∧ md ≤ 65535 ∧ b.length ≤ md) ∨
               (typ = 254 ∧ ∃ maxLen, maxLen ≤ 1023 ∧ md = charMd maxLen ∧ b.length ≤ maxLen) ∨
               ((typ = 249 ∨ typ = 250 ∨ typ = 251 ∨ typ = 252 ∨ typ = 255) ∧ 1 ≤ md ∧ md ≤ 4 ∧ b.length < 256 ^ md)
-  | .raw _ => False
+  -- JSON columns: the length-prefixed binary document of a well-formed document d, and d's text.  Documents holding a
+  -- DOUBLE are left out: their text depends on the runtime float formatter (covered at cell level by C14_doc).
+  | .raw b t => typ = 245 ∧ 1 ≤ md ∧ md ≤ 4 ∧ ∃ d : JDoc, WFDoc d ∧ NoDbl d ∧ (jsonb d).length < 256 ^ md ∧
+                  b = Bytes.ofLE md (jsonb d).length ++ jsonb d ∧ t = render (fun _ => []) true d
 
 end GV.W
